@@ -252,7 +252,8 @@ impl CheckAlloc {
         }
     }
 
-    unsafe fn note_free(&self, p: *mut u8, layout: Layout, kind_mismatch: u8) {
+    /// Returns false for a pointer the table does not know (freed already, or never allocated).
+    unsafe fn note_free(&self, p: *mut u8, layout: Layout, kind_mismatch: u8) -> bool {
         let slot = {
             let _g = Guard::new();
             let t = &mut *std::ptr::addr_of_mut!(TABLE);
@@ -283,8 +284,10 @@ impl CheckAlloc {
                     free_align: layout.align(),
                     tag: cur_tag(),
                 });
+                return false;
             }
         }
+        true
     }
 }
 
@@ -302,10 +305,13 @@ unsafe impl GlobalAlloc for CheckAlloc {
     }
 
     unsafe fn dealloc(&self, p: *mut u8, layout: Layout) {
-        self.note_free(p, layout, 1);
         // Free with the layout the block was really allocated with would hide nothing from the
-        // system allocator (glibc ignores the size), so just pass through.
-        System.dealloc(p, layout);
+        // system allocator (glibc ignores the size), so just pass through - except for a block
+        // that is not live (a second free): handing that to the system allocator would abort or
+        // corrupt the process before the violation is reported, so it is recorded and dropped.
+        if self.note_free(p, layout, 1) {
+            System.dealloc(p, layout);
+        }
     }
 
     unsafe fn realloc(&self, p: *mut u8, layout: Layout, new_size: usize) -> *mut u8 {
